@@ -34,6 +34,8 @@ def chunk(args):
         for raw in (True, False):
             for norm in (False, True):
                 for is_bytes in (False, True):
+                    if is_bytes and any(ord(ch) > 255 for ch in p):
+                        continue          # no bytes spelling of this text
                     if norm and not raw and SLASH_IN_NAME_ESCAPE.search(p):
                         # slash normalisation (Windows rules) inside an undecoded `\N{...}`: the C20 statement only says the sequence is not
                         # decoded; whether the separator spelling inside it is normalised is not its business (the code leaves it alone)
@@ -90,7 +92,9 @@ def run(chk, tier, seed):
     length = 4 if tier == 'quick' else 6
     jobs = [(c, n) for n in range(1, length + 1) for c in ALPHA]
     extra = ['\\U0001F600', '\\U00110000', '\\UFFFFFFFF', '\\u00e9x', '\\N{DIGIT ONE}', '\\N{LATIN SMALL LETTER A}*', '\\N{NOPE}', '\\N{', '\\x41\\x2a', '\\101\\52', '\\0', '\\400', '\\777a',
-             '\\x5b\\x61\\x5d', '\\x7ba,b\\x7d', 'a\\x7cb', '\\x21(a)', '\\\\x41', '\\\\\\x41', 'a\\/b', '\\/\\x2f', '[\\x61-\\x63]', '\\x2a\\x2a/a', '\\8', '\\xg1', '\\u12', '\\U1234567']
+             '\\x5b\\x61\\x5d', '\\x7ba,b\\x7d', 'a\\x7cb', '\\x21(a)', '\\\\x41', '\\\\\\x41', 'a\\/b', '\\/\\x2f', '[\\x61-\\x63]', '\\x2a\\x2a/a', '\\8', '\\xg1', '\\u12', '\\U1234567',
+             # digits that are not ASCII are not hex / octal digits: the escape is incomplete (Arabic-Indic 4 and 1, fullwidth 4 and 1)
+             '\\x\u0664\u0661', '\\x4\u0661', '\\u\u0660\u0660\u0664\u0661', '\\u004\u0661', '\\U0000004\u0661', '\\x\uff14\uff11', '\\\u0661\u0660\u0661', 'a\\x\u0664\u0661*']
     total = 0
     for n, bad in pmap(chunk, jobs + [(e, 1) for e in extra], chunk=1):
         total += n
